@@ -41,6 +41,45 @@ case "${1:-}" in
     build
     exec "$H/target/release/pcverif" replay "$2"
     ;;
+  C03)
+    build
+    tier="${2:-quick}"
+    "$H/target/release/pcverif" run C03 "$tier" 2> "$H/last-stderr.log"
+    rc=$?
+    if [ "$tier" = "thorough" ] && [ $rc -eq 0 ]; then
+      # coverage-guided tier: libFuzzer target over the same oracle (DESIGN.md §11)
+      ( cd "$H" && cargo +nightly fuzz build --fuzz-dir ../fuzz -s none > "$H/fuzz-build.log" 2>&1 )
+      if [ $? -ne 0 ]; then
+        echo "INCONCLUSIVE: fuzz target build failed (see $H/fuzz-build.log); proptest units of C03 passed"
+        exit 2
+      fi
+      run=/verif/fuzz/corpus-run
+      rm -rf "$run" && mkdir -p "$run" && cp /verif/fuzz/corpus/proofshape/* "$run"/
+      runs="${VERIF_FUZZ_RUNS:-3000}"
+      ( cd /verif/fuzz && ./target/x86_64-unknown-linux-gnu/release/proofshape "$run" -seed="$VERIF_SEED" -runs="$runs" -jobs=8 -workers=8 -len_control=0 -max_len=512 -artifact_prefix=/verif/fuzz/artifacts/ > "$H/fuzz-run.log" 2>&1 )
+      frc=$?
+      cat /verif/fuzz/fuzz-*.log >> "$H/fuzz-run.log" 2>/dev/null; rm -f /verif/fuzz/fuzz-*.log
+      viol=$(grep -h "^VIOLATION property=C03" "$H/fuzz-run.log" | sort -u)
+      execs=$(grep -ho "Done [0-9]* runs" "$H/fuzz-run.log" | awk '{s+=$2} END {print s+0}')
+      python3 - "$execs" "$(ls "$run" | wc -l)" "$(echo "$viol" | grep -c VIOLATION)" <<'PY'
+import json,sys
+p='/verif/evidence/C03.json'
+e=json.load(open(p))
+e['coverage']['libfuzzer']={'target':'proofshape','executions':int(sys.argv[1]),'corpus_files_after_run':int(sys.argv[2]),'violations':int(sys.argv[3]),
+  'note':'coverage-guided exploration of the same C03 oracle; campaigns are only approximately reproducible, saved inputs are the reproducible unit'}
+e['coverage']['evaluations']+=int(sys.argv[1])
+e['violations']=e.get('violations',0)+int(sys.argv[3])
+json.dump(e,open(p,'w'),indent=1)
+PY
+      if [ -n "$viol" ]; then
+        echo "$viol"
+        grep -h "^  unit=C03" "$H/fuzz-run.log" | sort -u | head -5
+        exit 1
+      fi
+      echo "libFuzzer: $execs executions, no violation"
+    fi
+    exit $rc
+    ;;
   C18)
     build
     build_nopar
